@@ -175,6 +175,20 @@ def flo_programs(tier):
                     ["      frame x1 in x0"] + rec3("x1", 9) + ["         go x2 if elapsed >= %r" % (d * TICK)] + \
                     ["      frame x2 in x0"] + rec3("x2", 9) + ["         done me"]
                 progs.append(("R4 B holds aux X, X done after %d tick(s); A: %s at tick %d" % (d, " + ".join(ending), e), [A, B, X]))
+    # R5: `bid ready C` on a framer that nobody then starts (C inactive, or active and stopped earlier): C sits
+    #     READIED and is re-sent READY every tick; when every other tasker has stopped, no tasker is started or
+    #     running, so the run must end there (and C, still scheduled, gets its one ABORT)
+    for j in ((0, 1) if tier != "thorough" else (0, 1, 2, 3)):
+        for end in (("bid stop all",), ("bid stop B", "bid stop me")):
+            A = ["framer A be active first a0"] + chain2("a", "atop", j + 3, {j: ["bid ready C"]}, end=end)
+            B = deep_framer("B", "active", 2)
+            C = deep_framer("C", "inactive", 2)
+            progs.append(("R5 bid ready C (inactive) at tick %d; end: %s" % (j, " + ".join(end)), [A, B, C]))
+        A = ["framer A be active first a0"] + chain2("a", "atop", j + 5, {j: ["bid stop C"], j + 2: ["bid ready C"]},
+                                                     end=("bid stop B", "bid stop me"))
+        B = deep_framer("B", "active", 2)
+        C = deep_framer("C", "active", 2)
+        progs.append(("R5 bid stop C at tick %d, bid ready C at tick %d; end: bid stop B + bid stop me" % (j, j + 2), [A, C, B]))
     out = []
     for title, blocks in progs:
         text = "house h\n\n" + "\n\n".join("\n".join(b) for b in blocks) + "\n"
